@@ -18,11 +18,13 @@ CHECK = {
             'its host node, and its result satisfies the whole declarative postcondition written independently of the code (device nodes replace by container path, '
             'host type/major/minor, process uid/gid defaults, cgroup allow rules with default rwm; mounts replace by destination and are THE stable sort by depth - '
             'sortedness plus per-depth order determine the list (stable_sort_unique), so Go\'s algorithm is not modelled; hooks appended per stage; GIDs without '
-            'duplicates and never 0; RDT replaced; uid/gid/rest unchanged, untouched sections unchanged (frame)); env_post holds for every input outside the class '
-            'of known finding C03/env-existing-name and is refuted inside it (env_post_refuted). The model (incl. the runtime-tools generator calls and fillMissingInfo) '
+            'duplicates and never 0; RDT replaced; uid/gid/rest unchanged, untouched sections unchanged (frame)); env_post (every variable named by the edits defined exactly once with the value '
+            'of its last edit, all other entries kept in order) holds for EVERY initial env incl. existing definitions, duplicates and entries without = '
+            '(env_post_holds), while the dependency\'s generator alone duplicates a variable the OCI env already defines (generator_alone_refuted: the reason for '
+            'dropEnv, repaired defect D19, formerly known finding C03/env-existing-name). The model (incl. the runtime-tools generator calls and fillMissingInfo) '
             'is tied to the code by evaluating it in Coq on generated OCI specs x edit lists x real device nodes created with mknod against ContainerEdits.Apply, and '
             'the declarative postcondition is evaluated on the OBSERVED result as the oracle.',
     'note': 'Trusted: Coq kernel + vm_compute; harness projection of the OCI spec (touched part + JSON image of the rest); runtime-tools generate calls, '
-            'filepath.Clean and lstat are modelled (the latter as an explicit oracle argument) and corresponded. Known finding C03/env-existing-name (dependency). No axioms.',
+            'filepath.Clean and lstat are modelled (the latter as an explicit oracle argument) and corresponded. No axioms.',
     'technique': 'Coq proof (closed form of Apply by induction over edit lists, insertion sort = unique stable sort, index-cache invariant for env) + differential correspondence via vm_compute',
 }
